@@ -105,13 +105,16 @@ theorem replace_br_mid {s : List Nat} {es : List Str} (h : Valid s es) (Z : Str)
 
 /-! ### runs of `]` inside the middle text -/
 
-theorem noStart_run_sepT (i j : Nat) (hji : j < i) (q : Str) : NoStart (rep ']' i ++ q) (sepT j) := by
+theorem noStart_run_sepTz (z : Str) (hz : ∀ c ∈ z, c = ' ') (i j : Nat) (hji : j < i) (q : Str) : NoStart (rep ']' i ++ q) ((sepTz z) j) := by
   obtain ⟨i', rfl⟩ : ∃ m, i = m + 1 := ⟨i - 1, by omega⟩
   have hhead : ∀ A : Str, ']' ∉ A → NoStart (rep ']' (i' + 1) ++ q) A := fun A hA => by
     show NoStart (']' :: (rep ']' i' ++ q)) A
     exact noStart_of_head_not_mem hA
   cases j with
-  | zero => exact hhead _ (by simp [sepT])
+  | zero =>
+    refine hhead _ ?_
+    simp only [sepTz, List.mem_cons, not_or]
+    exact ⟨by decide, fun h => absurd (hz _ h) (by decide)⟩
   | succ j =>
     show NoStart _ (rep ']' (j + 1) ++ ',' :: rep '[' (j + 1))
     refine noStart_of_ctx (fun Z => ?_) (hhead _ ?_)
@@ -119,8 +122,8 @@ theorem noStart_run_sepT (i j : Nat) (hji : j < i) (q : Str) : NoStart (rep ']' 
     · simp only [List.mem_cons, not_or]
       exact ⟨by decide, not_mem_rep (by decide) _⟩
 
-theorem noStart_run_mid {s : List Nat} {es : List Str} (h : Valid s es) (i : Nat) (hi : 1 ≤ i) (hsi : s.length ≤ i)
-    (q : Str) : NoStart (rep ']' i ++ q) (mid sepT s es) := by
+theorem noStart_run_mid (z : Str) (hz : ∀ c ∈ z, c = ' ') {s : List Nat} {es : List Str} (h : Valid s es) (i : Nat) (hi : 1 ≤ i) (hsi : s.length ≤ i)
+    (q : Str) : NoStart (rep ']' i ++ q) (mid (sepTz z) s es) := by
   induction s generalizing es with
   | nil =>
     obtain ⟨e, rfl, he⟩ := h.single
@@ -128,17 +131,21 @@ theorem noStart_run_mid {s : List Nat} {es : List Str} (h : Valid s es) (i : Nat
     exact he.noStart (rep ']' i' ++ q) (by decide)
   | cons n s ih =>
     simp only [mid]
-    refine noStart_joinWith (fun y hy => ?_) (noStart_run_sepT i s.length (by simp at hsi; omega) q)
+    refine noStart_joinWith (fun y hy => ?_) (noStart_run_sepTz z hz i s.length (by simp at hsi; omega) q)
     obtain ⟨c, hc, rfl⟩ := List.mem_map.1 hy
     exact ih (h.chunk hc) (by simp at hsi; omega)
 
-theorem hash_not_mem_mid {s : List Nat} {es : List Str} (h : Valid s es) : '#' ∉ mid sepT s es := by
+theorem hash_not_mem_mid (z : Str) (hz : ∀ c ∈ z, c = ' ') {s : List Nat} {es : List Str} (h : Valid s es) : '#' ∉ mid (sepTz z) s es := by
   intro hm
   rcases mem_mid hm with ⟨j, hj⟩ | ⟨e, he, hce⟩
   · cases j with
-    | zero => simp [sepT] at hj
+    | zero =>
+      simp only [sepTz, List.mem_cons] at hj
+      rcases hj with hj | hj
+      · exact absurd hj (by decide)
+      · exact absurd (hz _ hj) (by decide)
     | succ j =>
-      simp only [sepT, List.mem_append, List.mem_cons] at hj
+      simp only [sepTz, List.mem_append, List.mem_cons] at hj
       rcases hj with hj | hj | hj
       · exact not_mem_rep (by decide) _ hj
       · exact absurd hj (by decide)
@@ -157,35 +164,35 @@ theorem noStart_sepPat_open (i a : Nat) : NoStart (sepPat i) (rep '[' a) := by
     show NoStart (']' :: (rep ']' i ++ ',' :: rep '[' (i + 1))) _
     exact noStart_of_head_not_mem (not_mem_rep (by decide) a)
 
-theorem occ_sepPat_mid {s : List Nat} {es : List Str} (h : Valid s es) (Z : Str) :
-    occ (sepPat s.length) (mid sepT s es ++ Z) = occ (sepPat s.length) Z := by
+theorem occ_sepPat_mid (z : Str) (hz : ∀ c ∈ z, c = ' ') {s : List Nat} {es : List Str} (h : Valid s es) (Z : Str) :
+    occ (sepPat s.length) (mid (sepTz z) s es ++ Z) = occ (sepPat s.length) Z := by
   apply occ_noStart
   cases s with
   | nil =>
     obtain ⟨e, rfl, he⟩ := h.single
     exact he.noStart [] (by decide)
-  | cons n s => exact noStart_run_mid h _ (by simp) (by simp) _
+  | cons n s => exact noStart_run_mid z hz h _ (by simp) (by simp) _
 
-theorem occ_sepPat_sepT (i : Nat) (W : Str) : occ (sepPat i) (sepT i ++ W) = occ (sepPat i) W + 1 := by
+theorem occ_sepPat_sepTz (z : Str) (hz : ∀ c ∈ z, c = ' ') (i : Nat) (W : Str) : occ (sepPat i) ((sepTz z) i ++ W) = occ (sepPat i) W + 1 := by
   cases i with
   | zero =>
-    show occ [','] ([','] ++ (' ' :: W)) = _
-    rw [occ_append_pat _ (by simp), occ_cons_of_not_prefix (by simp [List.isPrefixOf_cons_cons])]
+    show occ [','] ([','] ++ (z ++ W)) = _
+    rw [occ_append_pat _ (by simp), occ_noStart W (noStart_of_head_not_mem (p := []) (fun h => absurd (hz _ h) (by decide)))]
     rfl
   | succ i => exact occ_append_pat W (sepPat_ne_nil _)
 
-theorem count_level {n : Nat} {s : List Nat} {es : List Str} (h : Valid (n :: s) es) (a b : Nat) :
-    splitCount hashSep (replace (sepPat s.length) hashSep (rep '[' a ++ mid sepT (n :: s) es ++ rep ']' b)) = n := by
+theorem count_level (z : Str) (hz : ∀ c ∈ z, c = ' ') {n : Nat} {s : List Nat} {es : List Str} (h : Valid (n :: s) es) (a b : Nat) :
+    splitCount hashSep (replace (sepPat s.length) hashSep (rep '[' a ++ mid (sepTz z) (n :: s) es ++ rep ']' b)) = n := by
   have hn : 1 ≤ n := h.pos n (by simp)
   rw [splitCount_hash]
   · rw [List.append_assoc, occ_noStart _ (noStart_sepPat_open _ a)]
     simp only [mid]
-    rw [joinWith_count (occ (sepPat s.length)) (mid sepT s) (sepT s.length) _
-      (fun c hc Z => occ_sepPat_mid (h.chunk hc) Z) (occ_sepPat_sepT s.length)]
+    rw [joinWith_count (occ (sepPat s.length)) (mid (sepTz z) s) ((sepTz z) s.length) _
+      (fun c hc Z => occ_sepPat_mid z hz (h.chunk hc) Z) (occ_sepPat_sepTz z hz s.length)]
     rw [occ_eq_zero (c := ',') (by simp [sepPat]) (not_mem_rep (by decide) b)]
     simp; omega
   · simp only [List.mem_append, not_or]
-    exact ⟨⟨not_mem_rep (by decide) a, hash_not_mem_mid h⟩, not_mem_rep (by decide) b⟩
+    exact ⟨⟨not_mem_rep (by decide) a, hash_not_mem_mid z hz h⟩, not_mem_rep (by decide) b⟩
 
 theorem sliceTo_append (A R T : Str) : sliceTo (A ++ (R ++ T)) (A.length + R.length) = .ok (A ++ R) := by
   unfold sliceTo
@@ -195,14 +202,14 @@ theorem sliceTo_append (A R T : Str) : sliceTo (A ++ (R ++ T)) (A.length + R.len
   rfl
 
 /-- the first run of `i` closing brackets ends the first item -/
-theorem split_level {n : Nat} {s : List Nat} {es : List Str} (h : Valid (n :: s) es) (a b : Nat)
+theorem split_level (z : Str) {n : Nat} {s : List Nat} {es : List Str} (h : Valid (n :: s) es) (a b : Nat)
     (hi : 1 ≤ s.length) (hb : s.length ≤ b) :
-    ∃ T, rep '[' a ++ mid sepT (n :: s) es ++ rep ']' b
-        = (rep '[' a ++ mid sepT s (es.take s.prod)) ++ (rep ']' s.length ++ T) := by
+    ∃ T, rep '[' a ++ mid (sepTz z) (n :: s) es ++ rep ']' b
+        = (rep '[' a ++ mid (sepTz z) s (es.take s.prod)) ++ (rep ']' s.length ++ T) := by
   have hn : 1 ≤ n := h.pos n (by simp)
   obtain ⟨m, rfl⟩ : ∃ m, n = m + 1 := ⟨n - 1, by omega⟩
   simp only [mid, chunks, List.map_cons]
-  cases hr : (chunks s.prod m (es.drop s.prod)).map (mid sepT s) with
+  cases hr : (chunks s.prod m (es.drop s.prod)).map (mid (sepTz z) s) with
   | nil =>
     refine ⟨rep ']' (b - s.length), ?_⟩
     have : rep ']' b = rep ']' s.length ++ rep ']' (b - s.length) := by
@@ -210,17 +217,17 @@ theorem split_level {n : Nat} {s : List Nat} {es : List Str} (h : Valid (n :: s)
     simp [this, List.append_assoc]
   | cons y ys =>
     obtain ⟨j, hj⟩ : ∃ j, s.length = j + 1 := ⟨s.length - 1, by omega⟩
-    refine ⟨',' :: rep '[' s.length ++ joinWith (sepT s.length) (y :: ys) ++ rep ']' b, ?_⟩
+    refine ⟨',' :: rep '[' s.length ++ joinWith ((sepTz z) s.length) (y :: ys) ++ rep ']' b, ?_⟩
     rw [joinWith_cons_cons]
     rw [hj]
-    simp [sepT, List.append_assoc]
+    simp [sepTz, List.append_assoc]
 
-theorem parseShapeLoop_mid {s : List Nat} {es : List Str} (h : Valid s es) (a b : Nat) (hb : s.length ≤ b + 1) :
-    parseShapeLoop s.length (rep '[' a ++ mid sepT s es ++ rep ']' b) = .ok s := by
+theorem parseShapeLoop_midZ (z : Str) (hz : ∀ c ∈ z, c = ' ') {s : List Nat} {es : List Str} (h : Valid s es) (a b : Nat) (hb : s.length ≤ b + 1) :
+    parseShapeLoop s.length (rep '[' a ++ mid (sepTz z) s es ++ rep ']' b) = .ok s := by
   induction s generalizing es a b with
   | nil => rfl
   | cons n s ih =>
-    have hcount := count_level h a b
+    have hcount := count_level z hz h a b
     simp only [List.length_cons, parseShapeLoop]
     by_cases hi : s.length = 0
     · have hs : s = [] := List.eq_nil_of_length_eq_zero hi
@@ -230,24 +237,31 @@ theorem parseShapeLoop_mid {s : List Nat} {es : List Str} (h : Valid s es) (a b 
       simp only [List.append_assoc] at hcount
       simp [sliceTo, parseShapeLoop, hcount]
     · have hi' : 1 ≤ s.length := by omega
-      obtain ⟨T, hT⟩ := split_level h a b hi' (by simp at hb; omega)
+      obtain ⟨T, hT⟩ := split_level z h a b hi' (by simp at hb; omega)
       have hv : Valid s (es.take s.prod) := by
         obtain ⟨m, hm⟩ : ∃ m, n = m + 1 := ⟨n - 1, by have := h.pos n (by simp); omega⟩
         subst hm; exact h.chunk (by simp [chunks])
-      have hns : NoStart (rep ']' s.length) (rep '[' a ++ mid sepT s (es.take s.prod)) := by
+      have hns : NoStart (rep ']' s.length) (rep '[' a ++ mid (sepTz z) s (es.take s.prod)) := by
         have h1 : NoStart (rep ']' s.length ++ []) (rep '[' a) := by
           obtain ⟨j, hj⟩ : ∃ j, s.length = j + 1 := ⟨s.length - 1, by omega⟩
           rw [hj]
           exact noStart_of_head_not_mem (c := ']') (not_mem_rep (by decide) a)
-        have h2 := noStart_run_mid hv s.length hi' (Nat.le_refl _) []
+        have h2 := noStart_run_mid z hz hv s.length hi' (Nat.le_refl _) []
         simpa using h1.append h2
       rw [hcount, hT, find_noStart_pat _ hns]
-      have := sliceTo_append (rep '[' a ++ mid sepT s (es.take s.prod)) (rep ']' s.length) T
+      have := sliceTo_append (rep '[' a ++ mid (sepTz z) s (es.take s.prod)) (rep ']' s.length) T
       simp only [rep, List.length_replicate] at this
       simp only [rep]
       rw [this]
       have ihh := ih hv a s.length (by omega)
       simp only [rep] at ihh
       simp only [ihh]
+
+
+
+theorem parseShapeLoop_mid {s : List Nat} {es : List Str} (h : Valid s es) (a b : Nat) (hb : s.length ≤ b + 1) :
+    parseShapeLoop s.length (rep '[' a ++ mid sepT s es ++ rep ']' b) = .ok s := by
+  rw [sepT_eq]
+  exact parseShapeLoop_midZ [' '] (by simp) h a b hb
 
 end ArrModel.C18
